@@ -344,6 +344,96 @@ def SafeBlock (b : Block) : Prop := (pass b).ok = true
 
 instance (b : Block) : Decidable (SafeBlock b) := by unfold SafeBlock; infer_instance
 
+/-! ## `dead_code_elimination` and `update_chain` on one block
+
+The pipeline runs it between `build_def_use` (+ `split_variables`) and `register_propagation`, on the same
+chain dictionaries. -/
+
+/-- `is_call()` of an `AssignExpression`: its right-hand side is an invoke -/
+def Stmt.isCall : Stmt → Bool
+  | .assign _ (.call _ _ _) => true
+  | _ => false
+
+/-- `remove_defined_var()` -/
+def Stmt.dropLhs : Stmt → Stmt
+  | .assign _ r => .assign none r
+  | s => s
+
+structure DSt where
+  ins : Ins
+  ud : Chain
+  du : Chain
+  /-- not part of the code: every deletion so far passed `safeDel` -/
+  ok : Bool
+  deriving Repr
+
+/-- the deletion of the instruction at `loc` is justified: it is `x := e` with `e` pure and `x` dead after it -/
+def safeDel (ins : Ins) (loc : Int) : Bool :=
+  match ins.at loc with
+  | some (.assign (some x) e) => e.pure && deadAfter x (stmtsAfter ins loc) && increasing (ins.map (·.1))
+  | _ => false
+
+/-- dropping the defined register of the call `d` at `loc` is justified: the register is dead after it -/
+def safeDrop (ins : Ins) (loc : Int) (d : Stmt) : Bool :=
+  ins.at loc == some d && increasing (ins.map (·.1)) &&
+  match d with
+  | .assign (some x) _ => deadAfter x (stmtsAfter ins loc)
+  | .assign none _ => true
+  | _ => false
+
+/-- What both functions do with a definition `d` at `loc` that has no use left.  `rec` is `update_chain`.
+    The code calls `update_chain(graph, loc, du, ud)` and THEN `graph.remove_ins(loc)`; `update_chain` reads nothing of
+    the instruction at `loc` but its used registers, so the model deletes first and hands the registers over: the
+    same final list, and every intermediate list then computes what the block computes (a definition is deleted
+    after its last reader, not before). -/
+def DSt.kill (rec : Int → List Nat → DSt → DSt) (loc : Int) (d : Stmt) (st : DSt) : DSt :=
+  if d.isCall then { st with ins := st.ins.setAt loc d.dropLhs, ok := st.ok && safeDrop st.ins loc d }
+  else if d.se then st
+  else rec loc d.used { st with ins := st.ins.removeAt loc, ok := st.ok && safeDel st.ins loc }
+
+/-- `update_chain(graph, loc, du, ud)` for an instruction at `loc` that uses the registers `used` -/
+def updateChain : Nat → Int → List Nat → DSt → DSt
+  | 0, _, _, st => st
+  | fuel + 1, loc, used, st =>
+    used.foldl (fun st var =>
+      (st.ud.get (var, loc)).foldl (fun st defLoc =>
+        let du := st.du.set (var, defLoc) (rem1 (st.du.get (var, defLoc)) loc)
+        let udl := rem1 (st.ud.get (var, loc)) defLoc
+        let ud := if udl.isEmpty then st.ud.pop (var, loc) else st.ud.set (var, loc) udl
+        let st := { st with ud := ud, du := du }
+        if defLoc ≥ 0 && (st.du.get (var, defLoc)).isEmpty then
+          let st := { st with du := st.du.pop (var, defLoc) }
+          match st.ins.at defLoc with
+          | none => st
+          | some d => st.kill (updateChain fuel) defLoc d
+        else st) st) st
+
+/-- `for i, ins in node.get_loc_with_ins():` of `dead_code_elimination`, by index over the live list -/
+def dceLoop (n : Nat) : Nat → Nat → DSt → DSt
+  | 0, _, st => st
+  | fuel + 1, k, st =>
+    match st.ins[k]? with
+    | none => st
+    | some (i, s) =>
+      dceLoop n fuel (k + 1)
+        (match s.lhs with
+         | none => st
+         | some reg => if st.du.has (reg, i) then st else st.kill (updateChain n) i s)
+
+def dcePass (b : Block) : DSt :=
+  let ins := number b.stmts
+  let ud := buildUD b.params ins
+  dceLoop b.stmts.length b.stmts.length 0 { ins := ins, ud := ud, du := buildDU ud, ok := true }
+
+/-- the block `dead_code_elimination` leaves -/
+def dce (b : Block) : Block := { b with stmts := (dcePass b).ins.map (·.2) }
+
+/-- `dead_code_elimination` then `register_propagation` on the chains the former leaves, as the pipeline runs them -/
+def dceThenPropagate (b : Block) : St :=
+  let d := dcePass b
+  whileLoop b.params b.stmts.length (b.stmts.length + 1)
+    { ins := d.ins, ud := d.ud, du := d.du, change := true, ok := d.ok }
+
 /-! ## semantics -/
 
 /-- the calls made so far -/
@@ -520,6 +610,14 @@ def showOutcome : Outcome → String
 
 /-- the environment of the reply: register `r` holds `vals[r mod length]` -/
 def envOf (vals : List Int) : Env := fun r => vals.getD (r % (max vals.length 1)) 0
+
+/-- `dce <block>`: after `dead_code_elimination`; `dceprop <block>`: after `register_propagation` run on its result -/
+def replyDce (both : Bool) (ws : List String) : String :=
+  match decB ws with
+  | none => "bad-block"
+  | some b =>
+    let (ins, ok) := if both then ((dceThenPropagate b).ins, (dceThenPropagate b).ok) else ((dcePass b).ins, (dcePass b).ok)
+    "ins=" ++ String.intercalate " ; " (ins.map fun e => toString e.1 ++ ": " ++ showS e.2) ++ " | safe=" ++ toString ok
 
 def reply (ws : List String) : String :=
   match decB ws with
